@@ -17,8 +17,21 @@ class CooperativeAwarenessMessageSecurityHandler:
 
     def __init__(self, backend: ECDSABackend) -> None:
         self.backend: ECDSABackend = backend
+        # Time of the most recent inclusion of a full certificate (whichever ticket).
         self.last_signer_full_certificate_time: float = 0
+        # Per authorization ticket (HashedId8): time its certificate was last included.
+        self.last_full_certificate_time_of: dict[bytes, float] = {}
         self.requested_own_certificate: bool = False
+        # Authorization tickets (HashedId8) that still owe their certificate to a pending request.
+        self.certificate_owed_by: set[bytes] = set()
+
+    def request_own_certificate(self, hashedid8s) -> None:
+        """
+        A peer needs the certificates of the given own authorization tickets: each of them
+        includes the choice certificate in its next CAM.
+        """
+        self.requested_own_certificate = True
+        self.certificate_owed_by.update(hashedid8s)
 
     def sign(self, signed_data: dict, certificate: OwnCertificate) -> None:
         """
@@ -48,14 +61,21 @@ class CooperativeAwarenessMessageSecurityHandler:
         shall include the choice certificate immediately in its next CAM, instead of including the choice
         digest.
         """
-        signer: tuple = ("digest", certificate.as_hashedid8())
+        hashedid8 = certificate.as_hashedid8()
+        signer: tuple = ("digest", hashedid8)
         current_time = TimeService.time()
-        if (
-            current_time - self.last_signer_full_certificate_time > 1
-            or self.requested_own_certificate
-        ):
+        # The inclusion timer and the pending requests are kept per authorization ticket:
+        # a station may sign with several tickets (e.g. one for CAMs and one for VAMs).
+        last_inclusion = self.last_full_certificate_time_of.get(hashedid8, 0)
+        # A request raised without naming tickets is served by the next signer.
+        requested = self.requested_own_certificate and (
+            not self.certificate_owed_by or hashedid8 in self.certificate_owed_by
+        )
+        if current_time - last_inclusion > 1 or requested:
+            self.last_full_certificate_time_of[hashedid8] = current_time
             self.last_signer_full_certificate_time = current_time
-            self.requested_own_certificate = False
+            self.certificate_owed_by.discard(hashedid8)
+            self.requested_own_certificate = bool(self.certificate_owed_by)
             signer = ("certificate", [certificate.certificate])
         return signer
 
@@ -329,7 +349,9 @@ class SignService:
         hashedid3 = hashedid8[-3:]
         if hashedid3 not in self.unknown_ats:
             self.unknown_ats.append(hashedid3)
-        self.cam_handler.requested_own_certificate = True
+        self.cam_handler.request_own_certificate(
+            list(self.certificate_library.own_certificates.keys())
+        )
 
     def notify_inline_p2pcd_request(self, request_list: list) -> None:
         """
@@ -341,7 +363,7 @@ class SignService:
         for own_cert in self.certificate_library.own_certificates.values():
             own_hashedid3 = own_cert.as_hashedid8()[-3:]
             if own_hashedid3 in request_list:
-                self.cam_handler.requested_own_certificate = True
+                self.cam_handler.request_own_certificate([own_cert.as_hashedid8()])
         for hashedid3 in request_list:
             ca_cert = self.certificate_library.get_ca_certificate_by_hashedid3(hashedid3)
             if ca_cert is not None and hashedid3 not in self.requested_ats:
